@@ -354,7 +354,52 @@ def r7_base_readers(c, facts):
         c.ok(R, {'readers': sorted(readers), 'writers': sorted(writers)})
 
 
+# frozen: the features of the serialisation crates the workspace asks for (a feature is unified over the whole build: asking
+# for it in one member changes the crate for every user, openapiv3's free-form values included)
+SERIAL_DEPS = {'serde_json': [], 'serde_yaml': [], 'openapiv3': [], 'indexmap': [], 'serde': ['derive']}
+SERIAL_CHANGING = {'arbitrary_precision': 'numbers become a private map that serde_yaml writes as `$serde_json::private::Number`',
+                   'preserve_order': 'the key order of free-form maps changes', 'float_roundtrip': 'floats are parsed differently',
+                   'unbounded_depth': 'the recursion limit of the reader is lifted'}
+
+
+def r9_dep_features(c, facts, rule='C14.R9'):
+    """the base is read and the document written through serde_json / serde_yaml / openapiv3 as the build configures
+    them. A Cargo feature that changes how those crates represent or write a value changes every kept part of the base
+    (extensions, examples, defaults) without a line of Rust being touched."""
+    import tomllib
+    R = c.rule(rule, 'DEP-FEATURES: the manifests ask the serialisation crates (serde_json, serde_yaml, openapiv3, indexmap, serde) for no feature that changes how a value is represented or written')
+    if facts.manifests is None:
+        c.skip(R, 'manifests', 'the fact set was exported without the manifests')
+        return
+    n = 0
+    for path, text in sorted(facts.manifests.items()):
+        try:
+            m = tomllib.loads(text)
+        except Exception as e:
+            c.bad(R, 'manifest-unreadable:' + path, '%s cannot be parsed: %s' % (path, e))
+            continue
+        tables = [m.get('dependencies', {}), m.get('workspace', {}).get('dependencies', {})] + [t.get('dependencies', {}) for t in (m.get('target') or {}).values() if isinstance(t, dict)]
+        for deps in tables:
+            for dep, spec in sorted(deps.items()):
+                name = spec.get('package', dep) if isinstance(spec, dict) else dep
+                if name not in SERIAL_DEPS:
+                    continue
+                n += 1
+                feats = sorted(spec.get('features', [])) if isinstance(spec, dict) else []
+                extra = [f for f in feats if f not in SERIAL_DEPS[name]]
+                inst = {'manifest': path, 'dependency': name, 'features': feats}
+                changing = [f for f in extra if f in SERIAL_CHANGING]
+                if changing:
+                    c.bad(R, 'serialisation-feature:%s:%s' % (name, ','.join(changing)), '%s enables %s of %s (%s): every value the typed model keeps free-form - the extensions, examples and defaults of the base - is written differently' % (path, changing, name, '; '.join(SERIAL_CHANGING[f] for f in changing)), **inst)
+                elif extra:
+                    c.skip(R, '%s:%s' % (path, name), 'feature(s) %s not in the frozen table' % extra)
+                else:
+                    c.ok(R, inst)
+    c.floor(R, 'dependencies on serialisation crates in the manifests', n, 8)
+
+
 def run(c, facts):
+    c.run(r9_dep_features, facts)
     c.run(r7_base_readers, facts)
     import c13 as _c13
     R8 = c.rule('C14.R8', 'WHOLE-TARGET: the target holds the new document and nothing of an older one: it is written at one site, with a truncating API, on every successful run - a run that succeeds without writing leaves the document of another base in place (shared with C13.R1, C13.R14)')
